@@ -18,12 +18,14 @@ def schemaNs : String := "Schema"
 
 def varLeaf (n : Name) : Ty := .qref [schemaNs, Target.operationInput.name, n]
 
-def varField (c : Cfg) (d : VarDef) : Field :=
-  let opt := !d.ty.isNonNull && c.optionalInput
-  (d.name, true, opt,
-    if opt then .union [tsCore varLeaf false d.ty, .prim "null", .prim "undefined"] else tsOf varLeaf false d.ty)
+def varFieldL (leaf : Name → Ty) (optionalInput : Bool) (d : VarDef) : Field :=
+  let opt := !d.ty.isNonNull && optionalInput
+  (d.name, true, opt, optFieldTy leaf false opt d.ty)
+
+def varsTsL (leaf : Name → Ty) (optionalInput : Bool) (vars : List VarDef) : Ty :=
+  .obj (vars.map (varFieldL leaf optionalInput))
 
 /-- `get_type_for_variable_definitions` -/
-def varsTs (c : Cfg) (vars : List VarDef) : Ty := .obj (vars.map (varField c))
+def varsTs (c : Cfg) (vars : List VarDef) : Ty := varsTsL varLeaf c.optionalInput vars
 
 end NitroVerif.VarTypes
